@@ -212,6 +212,9 @@ func runMatrix(t *testing.T, run *report.Run, kd kindDef, envs []*kenv) {
 		classify(&v)
 		run.Violation(v)
 	}
+	if strings.HasPrefix(kd.name, "dhcp4-") && envs[0].has() && st.tx == 0 {
+		run.HarnessError(part + ": the kernel fast path never answered the victim before termination - the fast-path clause would be vacuous")
+	}
 	var hk []string
 	st.heldKinds.Range(func(k, _ any) bool { hk = append(hk, k.(string)); return true })
 	sort.Strings(hk)
@@ -232,6 +235,9 @@ func TestCheck(t *testing.T) {
 		"dhcp.Server has no Stop/administrative-terminate/Disconnect entry point (Start needs a UDP socket): those paths do not exist for the DHCP kinds",
 		"VLAN-pair cache entries are never written by the userspace DHCP server (Lease.STag/CTag are never set); the VLAN map is required to stay empty",
 		"kernel lease-expiry clock is uptime; virtual time only drives the userspace side",
+		"pppoe.Server has no NAT/QoS/eBPF/accounting integration and no administrative or RADIUS-Disconnect entry point: for that kind the resources are the session-table entry, the MAC index and the pool address",
+		"pppoe.SessionTeardown and subscriber.Manager only end sessions: establishment and the wiring of their callbacks/events to nat.Manager, qos.Manager, radius.Client/AccountingManager and radius.CoAProcessor is done by the harness the way a deployment would (real collaborators, no mocks of repository code); the IDLE path of the teardown kind is a caller that still holds the *Session",
+		"Engine B: scheduling points are lock operations, go statements and timers of the rewritten packages (radius, pppoe, subscriber, dhcp); nat/qos/ebpf code runs atomically between them; the end-of-schedule oracle runs inside the execution with scheduling off",
 	}
 	dir, err := os.MkdirTemp(filepath.Join(nativebpf.Root(), ".work"), "c16-")
 	if err != nil {
